@@ -27,13 +27,18 @@ COMMON = {
     "rule": "sequence = reset(saveInterval, maxResetGap) + random interleaving, on 1-3 simulated PD members sharing one "
             "embedded etcd and one leader key, of GenerateTSO(count in 1..2^18), UpdateTSO / Initialize (whole, or parked "
             "before their window-save transaction and released later with a fault flag), SetTSO around the current time, "
-            "memory resets, leadership hand-overs, local lease expiry, resign; every clock reading is injected per op "
+            "the MaxTS path (resetUserTimestamp with ignoreSmaller), memory resets, leadership hand-overs, local lease expiry, "
+            "resign, deletion of the leader record, another allocator's window under the same root, GenerateTSO calls "
+            "during whose k-th sleep other ops run (gettsx), and the real pd client in front of a member's allocator with "
+            "queued requests whose callers give up; one third of the sequences drive LocalTSOAllocators with 1-4 suffix "
+            "bits; every clock reading is injected per op "
             "(member skews up to +-1h, jumps +-1h); window writers issued behind a parked one must block. "
             "non-trivial = at least two grants and two of (hand-over, SetTSO, gated call, memory reset, lease expiry, error); "
             "distinct = distinct op sequence",
     "model_text": "PdModel/Model/Tso.lean: timestampOracle (generateTSO/getTS retry loop, UpdateTimestamp U1;U2;U3, "
-                  "SyncTimestamp S1;S2;S3, resetUserTimestamp, ResetTimestamp) for any number of members on one stored "
-                  "window guarded by the leader record; constants regenerated from server/tso/tso.go",
+                  "SyncTimestamp S1;S2;S3 with loadTimestamp over all windows of the root, resetUserTimestamp in both modes, "
+                  "ResetTimestamp, suffix differentiation) for any number of members on one stored window guarded by the "
+                  "leader record; constants regenerated from server/tso/tso.go",
     "assumptions": [
         "a member that wins a campaign starts a fresh term: its allocator was reset at the end of its previous term and no "
         "window write of an earlier term is still in flight (DESIGN section 5)",
